@@ -65,8 +65,17 @@ def run(chk, replay=None):
         rows.append(o)
     hist, index = history(chk, rows)
     hpath = os.path.join(wd, "hist.ndjson")
-    # several rounds: a rejected history stops at the first unexplained event; drop that script and go on
-    for rnd in range(6):
+    # a rejected history stops at the first unexplained event: report that script, then validate the scripts
+    # after it (the ones before it were accepted), until the whole history has been judged
+    full_len = len(hist)
+    n_alloc = sum(1 for e in hist if e["ev"] == "alloc")
+    n_complex = sum(1 for e in hist if e["ev"] == "too_complex")
+    n_anti = sum(1 for e in hist if e["ev"] == "anti_scratch_error")
+    rounds = 0
+    while hist:
+        rounds += 1
+        if rounds > 400:
+            raise lib.ToolError("more than 400 rejected scripts; giving up")
         lib.write_ndjson(hpath, hist)
         res = lib.tlc("Trace_RegAlloc", env={"HIST": hpath}, workers=1, timeout=1200)
         chk.tlc_stats(res)
@@ -101,18 +110,18 @@ def run(chk, replay=None):
         chk.report(key, "%s: %s in\n%s" % (why, json.dumps(ev), row["text"]),
                    {"program": byid[row["id"]], "event": ev, "events": row["events"], "mentioned": row["mentioned"],
                     "scratch_int": row["scratch_int"], "scratch_float": row["scratch_float"]})
-        # remove this script's slice and continue with the rest
+        chk.add("scripts_rejected")
+        # continue with the scripts after this one
         nxt = [x[0] for x in index if x[0] > start]
         end = (nxt[0] - 1) if nxt else len(hist)
-        removed = end - start + 1
-        hist = hist[:start - 1] + hist[end:]
-        index = [(s if s < start else s - removed, r) for (s, r) in index if s != start]
+        hist = hist[end:]
+        index = [(s0 - end, r) for (s0, r) in index if s0 > start]
     chk.set("traces_validated_against_impl", len(rows))
-    chk.set("events", len(hist))
-    n_alloc = sum(1 for e in hist if e["ev"] == "alloc")
+    chk.set("events", full_len)
     chk.set("alloc_events", n_alloc)
-    chk.set("too_complex_events", sum(1 for e in hist if e["ev"] == "too_complex"))
-    chk.set("anti_scratch_errors", sum(1 for e in hist if e["ev"] == "anti_scratch_error"))
+    chk.set("too_complex_events", n_complex)
+    chk.set("anti_scratch_errors", n_anti)
+    chk.set("tlc_runs", rounds)
     for o in rows[:3]:
         chk.sample({"source": o["text"], "events": o["events"][:8], "mentioned": o["mentioned"]})
     chk.assume("parameter registers of subs are exercised by the real-ECL part only when present (TestLanguage bodies have none)")
